@@ -178,10 +178,12 @@ static void cases(Harness &H, const std::vector<mpq_class> &gp) {
 }
 
 static void run(Harness &H) {
-  auto gp = grid_family("nonuni", H.thorough() ? 5 : 4);
+  // base grids with an odd and with an even number of points (comparisons that treat the middle specially)
+  auto gp = grid_family("nonuni", 5), gp4 = grid_family("nonuni", 4);
   cases<1, 1>(H, gp);
-  cases<1, 0>(H, gp);
+  cases<1, 0>(H, gp4);
   if (H.thorough()) {
+    cases<1, 1>(H, gp4);
     cases<0, 0>(H, gp);
     cases<0, 1>(H, gp);
     cases<2, 2>(H, gp);
